@@ -482,7 +482,9 @@ def order_predicate_other_arity(job: dict, cres: dict, v: dict) -> bool:
 def source_defines_order_predicate_name(job: dict, cres: dict, v: dict) -> bool:
     """the source itself defines a predicate with one of the generated __chain/__min/__max/__next names with an arity
     that differs from the one the name generator reserved (the arity of the domain predicate +1/+2)"""
-    return bool(re.search(r"(?m)^__(chain|min|max|next)_[0-9_]*(?:_?(?:max|min)_)?__dom_[A-Za-z0-9_]*\(", job["prog"]))
+    # (defined by a rule, also classically negated, or merely used in a body / #show condition / #external)
+    return bool(re.search(r"(?<![A-Za-z0-9_])__(chain|min|max|next)_[0-9_]*(?:_?(?:max|min)_)?__dom_[A-Za-z0-9_]*\(",
+                          job["prog"]))
 
 
 @matcher("duplication_condition_global_lost")
